@@ -334,6 +334,37 @@ def operands_of(record):
   return out
 
 
+def foreign_spec_kind(forest, at):
+  """'Dict' / 'List' when a container on the path to the written node, or below
+  it, carries a value_spec that is not the spec object of the Dict/List-typed
+  field it is stored in (the library binds a plain or schema-less value to the
+  field's own spec object; only a value that was typed before keeps its own)."""
+  def foreign(p, k, ch):
+    if not isinstance(ch, (pg.Dict, pg.List)) or ch.value_spec is None:
+      return False
+    try:
+      f = p.sym_attr_field(k)
+    except Exception:  # pylint: disable=broad-except
+      return False
+    return (f is not None and isinstance(f.value, (T.Dict, T.List)) and
+            ch.value_spec is not f.value)
+  try:
+    n = forest[at[0]]
+    if not isinstance(n, pg.Symbolic):
+      return None
+    for k in at[1]:
+      ch = n.sym_getattr(k)
+      if foreign(n, k, ch):
+        return kind_of(ch)
+      n = ch
+    for p, k, ch, _ in TM.walk(n):
+      if foreign(p, k, ch):
+        return kind_of(ch)
+  except Exception:  # pylint: disable=broad-except
+    return None
+  return None
+
+
 def srepr(x):
   try:
     return repr(x)[:200]
@@ -605,6 +636,15 @@ def run_case(ctx, i):
           ar, ak = d[1], list(d[2])
           probs = SM.schema_ok_nodes(
               [x], None, tol or (lambda _r, k, n, ar=ar, ak=ak: tolerate(ar, ak + k, n)))
+        if not probs and pre_spec is None and getattr(x, 'value_spec', None) is not None:
+          # bound by the rejected write: as a value of that spec it must also be
+          # what the spec maps it to (defaults filled in, members converted)
+          try:
+            mapped = x.value_spec.apply(SM.detach(x), allow_partial=bool(tol))
+            if not SM.contains_ref(x) and not pg.eq(mapped, x):
+              probs = [('not-fixpoint', f'it maps to {SM.safe_repr(mapped, 120)}')]
+          except (TypeError, ValueError, KeyError) as e:
+            probs = [('member-rejected', f'{type(e).__name__}: {e!s:.160}')]
         if not probs:
           if fresh:
             clean.append(x)
@@ -646,6 +686,12 @@ def run_case(ctx, i):
     c['schema_ok_evals'] += 1
     for clause, detail in SM.schema_ok_nodes(view, c, tolerate):
       found.setdefault(clause, detail)
+    if found and not mech.startswith('typed-operand['):
+      fk = foreign_spec_kind(forest, step['at'])
+      if fk:
+        # the written subtree holds a container that kept a spec of its own
+        # (it was stored through the typed-operand path), not the field's
+        mech = f'foreign-spec[{fk}]'
     for clause, detail in found.items():
       ctx.violation(clause, mech, f'after step {len(trace)}: {trace[-1]}\n{detail}', witness)
     for j in skip:
